@@ -98,7 +98,8 @@ Apply(f, c, v) ==
     [] f = "sub_date_ival"  -> IF IvalOK(c[1], c[2]) THEN D(SubIval(v[1], Ival(c[1], c[2]))) ELSE OOD
     [] f = "add_date_ival2" -> IF IvalOK(c[1], c[2]) /\ IvalOK(c[3], c[4])
                                THEN D(AddIval(v[1], IvalSum(Ival(c[1], c[2]), Ival(c[3], c[4])))) ELSE OOD
-    [] f = "date_bin"       -> IF IvalOK(c[1], c[2]) /\ BinDomain(Ival(c[1], c[2]), c[3])
+    [] f \in {"date_bin", "date_bin_s"}                      \* stride given as interval(..) / as the same text
+                            -> IF IvalOK(c[1], c[2]) /\ BinDomain(Ival(c[1], c[2]), c[3])
                                THEN D(DateBin(Ival(c[1], c[2]), v[1], c[3])) ELSE OOD
     [] f = "date_bin_col"   -> IF IvalOK(c[1], c[2]) /\ BinDomain(Ival(c[1], c[2]), v[2])
                                THEN D(DateBin(Ival(c[1], c[2]), v[1], v[2])) ELSE OOD
@@ -152,12 +153,14 @@ Conforms(e, obs) ==
 Accepts(f, c, v, obs) == LET e == Apply(f, c, v) IN e = OOD \/ Conforms(e, obs)
 IsOOD(f, c, v) == Apply(f, c, v) = OOD
 
-\* named deviations of the shipped code (known findings): a rejected observation that is exactly the deviation
-\* gets the finding's key; any other rejected observation keeps the generic key of its function
+\* named deviations (a known finding of the shipped code, or the behaviour before a repair): a rejected observation
+\* that is exactly the deviation gets its own key; any other rejected observation keeps the generic key of its
+\* function.  date_bin:month-stride:on-boundary = the walk before repair 5c4d63a (a regression to it is reported
+\* under that key); cast:int:decimal-infinity = int() of an infinite decimal raises OverflowError.
 Deviation(f, c, v, obs) ==
-  IF f \in {"date_bin", "date_bin_col"}
+  IF f \in {"date_bin", "date_bin_s", "date_bin_col"}
     THEN LET iv == Ival(c[1], c[2])
-             origin == IF f = "date_bin" THEN c[3] ELSE v[2] IN
+             origin == IF f = "date_bin_col" THEN v[2] ELSE c[3] IN
          IF IvalOK(c[1], c[2]) /\ BinDomain(iv, origin) /\ OnBoundaryAfterOrigin(iv, v[1], origin)
             /\ obs = D(PrevBin(iv, v[1], origin))
          THEN "date_bin:month-stride:on-boundary" ELSE ""
